@@ -19,7 +19,7 @@ LEVEL = 'exploration'
 TECHNIQUE = 'property-based testing; tokenize-based prefix/suffix preservation oracle computed from the OLD source only'
 RULE = ('Single-node structured edits (replace / remove / cut / put / item and attribute assignment and deletion) and '
         'statement insertions on comment-rich module sources (real windows, maintainers\' snippets, synthetic templates, layout '
-        'mutated with comments / continuations / semicolons), with all trivia / pep8space / elif_ / docstr option values, in '
+        'mutated with comments / continuations / semicolons, plus a grid of programs whose comments END IN A BACKSLASH next to real continuations), with all trivia / pep8space / elif_ / docstr option values, in '
         'sequences. For each successful edit the allowed region A_max is computed from the OLD source with tokenize and CPython '
         'extents: the element\'s tokens, its own grouping parentheses, one adjoining separator token per side, the comment '
         'tokens the reference trivia selector says the trivia option selects, and the `else:`/`finally:` header when the '
